@@ -29,6 +29,16 @@
 //!    same id used again by a later call after the first one ended.
 //!  * client_cleanup: send_to failing at each transmission; the future dropped on a grid of
 //!    instants; afterwards a late message of each class with the request's id.
+//!  * client_transport: WHERE the call is when its response comes in. How the user's send_to
+//!    completes (ready on its first poll / returns Pending 1 or 3 times without time passing /
+//!    stays pending 2 or 40 ms) x how the peer's answer reaches StunEndpoint::receive (from inside
+//!    send_to before or after its own await points = peer in the same process; from a server task
+//!    that send_to wakes, latency 0 / half of the pending time / 1 ms after send_to returned) x which
+//!    transmission is answered by the right id (each of the 7, or none) x foreign-id responses
+//!    (none / one back to back in front of the right one / to every earlier transmission / only
+//!    foreign ones) x {success, error} x {header only, pooled body}, ids and request contents
+//!    rotating. So the response to transmission i arrives while send_to of transmission i is still
+//!    pending (i = 0: the initial transmission; i > 0: a retransmission), or right after it returned.
 //!
 //! Oracle (from the statement only)
 //!  * transmissions exactly at t_i until the response, same bytes, same target; the call returns
@@ -38,7 +48,11 @@
 //!  * with several requests pending, each call is completed by the response carrying ITS id and is
 //!    not disturbed by the others; the number of entries after each return equals the number of
 //!    calls still running;
-//!  * 0 entries after return / error / drop.
+//!  * 0 entries after return / error / drop;
+//!  * client_transport: the response with the request's id completes the call wherever the call is
+//!    at that instant (inside send_to or waiting); no transmission follows it; the call returns at
+//!    the instant of delivery or, if send_to of that transmission was still pending, when that send_to
+//!    returned; foreign-id responses reach the user at their instants; 0 entries afterwards.
 //!
 //! Not asserted
 //!  * whether a REQUEST or INDICATION carrying the pending id completes the call: the statement
@@ -46,6 +60,10 @@
 //!    to the user while the call continues) are accepted as a whole; everything else is asserted
 //!    under the reading observed;
 //!  * give-up instant 39.5 s (RFC Rm = 16) or 63.5 s (pure doubling);
+//!  * whether the 500 ms << i wait runs from the start or from the end of a send_to that takes time
+//!    (client_transport accepts either reading for the whole case; ezk: from the end);
+//!  * a timing tie between a server task's delivery and the completion of a pending send_to (not
+//!    generated); what a send_to that fails AFTER the response came in should return;
 //!  * reliable transports, methods other than Binding (ezk's parser knows no other), source
 //!    address of the response, two calls pending with the SAME id.
 
@@ -1004,4 +1022,427 @@ pub fn check_cleanup(case: &CleanupCase, out: &mut CaseOut) {
             }
         }
     });
+}
+
+// --- the transport's send_to and the path of the answer ---------------------------------------------------------
+//
+// client_schedule / client_concurrent deliver every message from a script task at an instant at which
+// the call sits in its wait, and their send_to completes on its first poll. The statement says
+// "its response is matched by transaction id" without any condition on WHERE the call is when the
+// response comes in, and `StunEndpointUser::send_to` is an async fn of the embedding application: it
+// may complete at once, return Pending a few times without time passing (socket not writable), or
+// stay pending for some time; the answer may be delivered by another task that the datagram wakes
+// (any latency including 0) or from inside send_to (peer in the same process). This sub-check
+// crosses those: the answer to transmission i comes in while send_to of transmission i has not
+// returned / at the very instant it returned / after it returned.
+
+/// how the user's `send_to` completes
+#[derive(Clone, Copy, Debug, Hash, PartialEq, Eq, Serialize, Deserialize)]
+pub enum SendMode {
+    /// ready on its first poll
+    Ready,
+    /// returns Pending this many times, no virtual time passes (yield_now)
+    Yields(u8),
+    /// stays pending for this many virtual ms
+    Pending(u64),
+}
+
+/// how the answer of the peer reaches `StunEndpoint::receive`
+#[derive(Clone, Copy, Debug, Hash, PartialEq, Eq, Serialize, Deserialize)]
+pub enum AnswerPath {
+    /// from inside send_to, before its own await points (the datagram is with the peer already)
+    InsideBefore,
+    /// from inside send_to, after its own await points, right before it returns
+    InsideAfter,
+    /// by a server task that send_to wakes on entry; it delivers `latency_ms` later (0: as soon as
+    /// the scheduler lets it run)
+    Task { latency_ms: u64 },
+}
+
+#[derive(Clone, Debug, Hash, PartialEq, Eq, Serialize, Deserialize)]
+pub struct TransportCase {
+    pub send: SendMode,
+    pub path: AnswerPath,
+    /// transmission (0..7) that is answered by a response with the request's id; None: never
+    pub right_at: Option<u8>,
+    /// bit i set: transmission i is answered by a response with another id (if i == right_at: that
+    /// message first, the right one immediately behind it). Only bits <= right_at matter.
+    pub wrong_at: u8,
+    pub wrong_bit: u8,
+    /// Success or Error
+    pub class: RClass,
+    pub tid: [u8; 12],
+    pub attrs: Vec<RAttr>,
+    pub tail: Vec<RTail>,
+    pub req_attrs: Vec<RAttr>,
+    pub req_tail: Vec<RTail>,
+}
+
+/// (send mode, answer path): every path that differs from the others under that mode. No timing
+/// ties: a server task never delivers at the instant a pending send_to completes.
+fn transport_modes() -> Vec<(SendMode, AnswerPath)> {
+    let mut v = vec![
+        (SendMode::Ready, AnswerPath::InsideBefore),
+        (SendMode::Ready, AnswerPath::Task { latency_ms: 0 }),
+        (SendMode::Ready, AnswerPath::Task { latency_ms: 1 }),
+    ];
+    for n in [1u8, 3] {
+        v.push((SendMode::Yields(n), AnswerPath::InsideBefore));
+        v.push((SendMode::Yields(n), AnswerPath::InsideAfter));
+        v.push((SendMode::Yields(n), AnswerPath::Task { latency_ms: 0 }));
+        v.push((SendMode::Yields(n), AnswerPath::Task { latency_ms: 1 }));
+    }
+    for d in [2u64, 40] {
+        v.push((SendMode::Pending(d), AnswerPath::InsideBefore));
+        v.push((SendMode::Pending(d), AnswerPath::InsideAfter));
+        v.push((SendMode::Pending(d), AnswerPath::Task { latency_ms: 0 }));
+        v.push((SendMode::Pending(d), AnswerPath::Task { latency_ms: d / 2 }));
+        v.push((SendMode::Pending(d), AnswerPath::Task { latency_ms: d + 1 }));
+    }
+    v
+}
+
+pub fn transport_cases(tier: Tier) -> Vec<TransportCase> {
+    // (right_at, wrong_at)
+    let mut schedules: Vec<(Option<u8>, u8)> = vec![(None, 0), (None, 0x7f)];
+    for i in 0u8..7 {
+        schedules.push((Some(i), 0));
+        // a foreign response and the right one back to back
+        schedules.push((Some(i), 1 << i));
+        if i > 0 {
+            // every earlier transmission answered by a foreign response
+            schedules.push((Some(i), (1 << i) - 1));
+        }
+    }
+    let classes = [RClass::Success, RClass::Error];
+    let pools: Vec<Vec<Body>> = classes.iter().map(|c| body_pool(*c)).collect();
+    let tids = tid_pool();
+    let reqs = req_pool();
+    let empty = Body { attrs: vec![], tail: vec![] };
+    let mut v = vec![];
+    let mut n = 0usize;
+    for (send, path) in transport_modes() {
+        for &(right_at, wrong_at) in &schedules {
+            n += 1;
+            for (ci, &class) in classes.iter().enumerate() {
+                let pool = &pools[ci];
+                let picks: Vec<Option<usize>> = match tier {
+                    Tier::Thorough => std::iter::once(None).chain((0..pool.len()).map(Some)).collect(),
+                    // the answer to the INITIAL transmission is the one a fast peer overtakes send_to
+                    // with: more shapes there
+                    Tier::Quick if right_at == Some(0) => std::iter::once(None).chain((0..4).map(|j| Some((n + ci + j * 5) % pool.len()))).collect(),
+                    Tier::Quick => vec![None, Some((n + ci) % pool.len())],
+                };
+                for (k, pick) in picks.iter().enumerate() {
+                    let plain = class == RClass::Success && pick.is_none();
+                    let salt = n * 7 + ci * 3 + k;
+                    let body = pick.map_or(&empty, |i| &pool[i]);
+                    let req = if plain { &empty } else { &reqs[salt % reqs.len()] };
+                    v.push(TransportCase {
+                        send,
+                        path,
+                        right_at,
+                        wrong_at,
+                        wrong_bit: ((salt * 5 + n) % 96) as u8,
+                        class,
+                        tid: if plain { TID } else { tids[salt % tids.len()] },
+                        attrs: body.attrs.clone(),
+                        tail: body.tail.clone(),
+                        req_attrs: req.attrs.clone(),
+                        req_tail: req.tail.clone(),
+                    });
+                }
+            }
+        }
+    }
+    v
+}
+
+/// mock transport + peer of client_transport
+struct NetUser {
+    t0: Instant,
+    send: SendMode,
+    path: AnswerPath,
+    /// answers[n]: the messages the peer returns for transmission n, in order
+    answers: Vec<Vec<Vec<u8>>>,
+    ep: std::sync::OnceLock<std::sync::Weak<StunEndpoint<NetUser>>>,
+    to_server: tokio::sync::mpsc::UnboundedSender<usize>,
+    /// (start of send_to, end of send_to, bytes, target), virtual microseconds
+    sends: Mutex<Vec<(u64, Option<u64>, Vec<u8>, SocketAddr)>>,
+    received: Mutex<Vec<(u64, u128, Vec<u8>)>>,
+}
+
+impl NetUser {
+    fn now_us(&self) -> u64 {
+        (Instant::now() - self.t0).as_micros() as u64
+    }
+}
+
+async fn deliver_answers(ep: &StunEndpoint<NetUser>, n: usize) {
+    let msgs = ep.user().answers.get(n).cloned().unwrap_or_default();
+    for b in msgs {
+        let msg = ParsedMessage::parse(b).expect("parsed before");
+        ep.receive(msg, target(), MockTp { reliable: false }).await;
+    }
+}
+
+#[async_trait::async_trait]
+impl StunEndpointUser for NetUser {
+    type Transport = MockTp;
+
+    async fn send_to(&self, bytes: &[u8], target: SocketAddr, _transport: &MockTp) -> io::Result<()> {
+        let n = {
+            let mut s = self.sends.lock();
+            s.push((self.now_us(), None, bytes.to_vec(), target));
+            s.len() - 1
+        };
+        let ep = self.ep.get().and_then(|w| w.upgrade());
+        match self.path {
+            AnswerPath::InsideBefore => {
+                if let Some(ep) = &ep {
+                    deliver_answers(ep, n).await;
+                }
+            }
+            AnswerPath::Task { .. } => {
+                let _ = self.to_server.send(n);
+            }
+            AnswerPath::InsideAfter => {}
+        }
+        match self.send {
+            SendMode::Ready => {}
+            SendMode::Yields(k) => {
+                for _ in 0..k {
+                    tokio::task::yield_now().await;
+                }
+            }
+            SendMode::Pending(ms) => tokio::time::sleep(Duration::from_millis(ms)).await,
+        }
+        if self.path == AnswerPath::InsideAfter {
+            if let Some(ep) = &ep {
+                deliver_answers(ep, n).await;
+            }
+        }
+        self.sends.lock()[n].1 = Some(self.now_us());
+        Ok(())
+    }
+
+    async fn receive(&self, message: IncomingMessage<MockTp>) {
+        self.received.lock().push((self.now_us(), message.message.tsx_id, message.message.buffer().to_vec()));
+    }
+}
+
+pub fn check_transport(case: &TransportCase, out: &mut CaseOut) {
+    let mut wrong_tid = case.tid;
+    wrong_tid[(case.wrong_bit / 8) as usize % 12] ^= 1 << (case.wrong_bit % 8);
+    let right_bytes = msg_bytes(case.class, case.tid, &case.attrs, &case.tail);
+    let wrong_bytes = msg_bytes(case.class, wrong_tid, &case.attrs, &case.tail);
+    let bytes = msg_bytes(RClass::Request, case.tid, &case.req_attrs, &case.req_tail);
+    let id = tid_u128(&case.tid);
+    if !is_response(case.class) || case.right_at.map_or(false, |i| i > 6) {
+        out.class("skipped:not-a-generated-case");
+        return;
+    }
+    if ParsedMessage::parse(right_bytes.clone()).is_err() || ParsedMessage::parse(wrong_bytes.clone()).is_err() {
+        out.class("skipped:ezk-refuses-the-reference-encoded-message(see ref_decode)");
+        return;
+    }
+    out.nontrivial(case);
+
+    let last = case.right_at.map_or(6, |i| i as usize);
+    let wrong = |i: usize| i <= last && case.wrong_at & (1 << i) != 0;
+    let answers: Vec<Vec<Vec<u8>>> = (0..7)
+        .map(|i| {
+            let mut a = vec![];
+            if wrong(i) {
+                a.push(wrong_bytes.clone());
+            }
+            if case.right_at == Some(i as u8) {
+                a.push(right_bytes.clone());
+            }
+            a
+        })
+        .collect();
+
+    // virtual ms send_to stays pending; offset of the answer from the start of its send_to
+    let d = match case.send {
+        SendMode::Pending(ms) => ms,
+        _ => 0,
+    };
+    let off = match case.path {
+        AnswerPath::InsideBefore => 0,
+        AnswerPath::InsideAfter => d,
+        AnswerPath::Task { latency_ms } => latency_ms,
+    };
+    // does the answer come in before send_to has returned?
+    let during = match (case.path, case.send) {
+        (AnswerPath::InsideBefore | AnswerPath::InsideAfter, _) => true,
+        (AnswerPath::Task { .. }, SendMode::Ready) => false,
+        (AnswerPath::Task { latency_ms }, SendMode::Yields(_)) => latency_ms == 0,
+        (AnswerPath::Task { latency_ms }, SendMode::Pending(ms)) => latency_ms < ms,
+    };
+
+    out.class(match case.send {
+        SendMode::Ready => "send_to:ready-on-first-poll",
+        SendMode::Yields(_) => "send_to:yields",
+        SendMode::Pending(_) => "send_to:pending-for-some-ms",
+    });
+    out.class(match case.path {
+        AnswerPath::InsideBefore | AnswerPath::InsideAfter => "answer:from-inside-send_to",
+        AnswerPath::Task { latency_ms: 0 } => "answer:server-task-latency-0",
+        AnswerPath::Task { .. } => "answer:server-task-latency>0",
+    });
+    out.class(match (case.right_at, during) {
+        (None, _) if case.wrong_at == 0 => "never-answered",
+        (None, _) => "only-wrong-ids",
+        (Some(0), true) => "response-while-send_to-of-the-initial-transmission-is-pending",
+        (Some(_), true) => "response-while-send_to-of-a-retransmission-is-pending",
+        (Some(0), false) => "response-after-send_to-of-the-initial-transmission-returned",
+        (Some(_), false) => "response-after-send_to-of-a-retransmission-returned",
+    });
+    if case.right_at.map_or(false, |i| wrong(i as usize)) {
+        out.class("foreign-response-and-right-response-back-to-back");
+    }
+    out.class(if case.class == RClass::Success { "class:success-response" } else { "class:error-response" });
+    out.class(if !case.tail.is_empty() {
+        "body:protected"
+    } else if !case.attrs.is_empty() {
+        "body:attributes"
+    } else {
+        "body:header-only"
+    });
+    out.class(id_class(&case.tid));
+
+    // ---- run ezk
+    let rt = runtime();
+    let (result, t_ret, pending_after, sends, received) = rt.block_on(async {
+        let t0 = Instant::now();
+        let (to_server, mut from_client) = tokio::sync::mpsc::unbounded_channel::<usize>();
+        let ep = Arc::new(StunEndpoint::new(NetUser {
+            t0,
+            send: case.send,
+            path: case.path,
+            answers,
+            ep: std::sync::OnceLock::new(),
+            to_server,
+            sends: Mutex::new(vec![]),
+            received: Mutex::new(vec![]),
+        }));
+        let _ = ep.user().ep.set(Arc::downgrade(&ep));
+        let latency = match case.path {
+            AnswerPath::Task { latency_ms } => latency_ms,
+            _ => 0,
+        };
+        let weak = Arc::downgrade(&ep);
+        tokio::spawn(async move {
+            while let Some(n) = from_client.recv().await {
+                if latency > 0 {
+                    tokio::time::sleep(Duration::from_millis(latency)).await;
+                }
+                let Some(ep) = weak.upgrade() else { return };
+                deliver_answers(&ep, n).await;
+            }
+        });
+        let tp = MockTp { reliable: false };
+        let r = ep.send_request(Request { bytes: &bytes, tsx_id: id, transport: &tp }, target()).await;
+        let t = (Instant::now() - t0).as_micros() as u64;
+        let p = ep.verif_pending();
+        let r = r.map(|o| o.map(|m| (m.tsx_id, m.buffer().to_vec(), super::ezk::from_ezk_class(m.class))));
+        let sends = ep.user().sends.lock().clone();
+        let received = ep.user().received.lock().clone();
+        (r, t, p, sends, received)
+    });
+    let got_sends: Vec<u64> = sends.iter().map(|s| s.0).collect();
+    out.note = Some(format!("send_to entered at {got_sends:?} us; returned at {t_ret} us"));
+
+    if pending_after != 0 {
+        out.fail("c20.client/pending-after-return", format!("{pending_after} transaction entries after send_request returned"));
+    }
+    let completed = match &result {
+        Ok(Some(_)) => true,
+        Ok(None) => false,
+        Err(e) => {
+            out.fail("c20.client/unexpected-error", format!("{e}"));
+            return;
+        }
+    };
+    match (case.right_at, completed) {
+        (Some(i), false) => {
+            // everything that follows (retransmissions, the message at the user) is a consequence
+            let what = class_name(case.class);
+            let sig = if during { format!("c20.client/{what}-during-send_to-not-matched") } else { format!("c20.client/{what}-not-matched") };
+            out.fail(
+                sig,
+                format!(
+                    "{what} with the id of the pending request, answer to transmission {i}, delivered {} (send_to {:?}, answer {:?}); the call went on and returned None at {t_ret} us; \
+                     StunEndpointUser::receive saw {:?}",
+                    if during { "before send_to of that transmission returned" } else { "after send_to returned" },
+                    case.send,
+                    case.path,
+                    received.iter().map(|(t, rid, _)| (*t, *rid == id)).collect::<Vec<_>>()
+                ),
+            );
+            return;
+        }
+        (None, true) => {
+            let rid = result.as_ref().ok().and_then(|o| o.as_ref()).map(|m| m.0).unwrap_or(0);
+            out.fail("c20.client/completed-by-wrong-id", format!("no message with the request's id was delivered, yet the call returned a message with id {rid:#x}"));
+            return;
+        }
+        _ => {}
+    }
+
+    // ---- expected, from the statement. The statement does not say whether the 500 ms << i run from
+    // the start or from the end of a send_to that takes time: both readings accepted as a whole.
+    let timeline = |from_end: bool| -> Vec<u64> {
+        let mut s = vec![0u64];
+        for i in 0..last {
+            s.push(s[i] + if from_end { d } else { 0 } + (500u64 << i));
+        }
+        s
+    };
+    let got_ms: Vec<u64> = got_sends.iter().map(|t| t / 1000).collect();
+    let exact = got_sends.iter().all(|t| t % 1000 == 0);
+    let starts = if exact && got_ms == timeline(true) {
+        timeline(true)
+    } else if exact && got_ms == timeline(false) {
+        out.class("timeout-counted-from-the-start-of-send_to");
+        timeline(false)
+    } else {
+        let sig = if got_sends.len() != last + 1 { "c20.client/transmission-count" } else { "c20.client/transmission-times" };
+        out.fail(sig, format!("send_to entered at {got_sends:?} us, expected {:?} ms (or {:?} ms)", timeline(true), timeline(false)));
+        return;
+    };
+    for (_, _, b, tgt) in &sends {
+        if *b != bytes || *tgt != target() {
+            out.fail("c20.client/retransmission-differs", "retransmitted bytes or target differ from the request");
+        }
+    }
+    match (&result, case.right_at) {
+        (Ok(Some((rid, buf, class))), Some(i)) => {
+            if *rid != id {
+                out.fail("c20.client/response-with-foreign-id", format!("returned response has id {rid:#x}"));
+            } else if buf[..] != right_bytes[..] || *class != case.class {
+                out.fail("c20.client/returned-message-differs", format!("returned message (class {class:?}, {} bytes) is not the delivered one (class {:?}, {} bytes)", buf.len(), case.class, right_bytes.len()));
+            }
+            // at the instant the response is delivered, or as soon as the send_to it overtook has returned
+            let a = starts[i as usize] + off;
+            let e = starts[i as usize] + d;
+            if t_ret != a * 1000 && !(during && t_ret == e.max(a) * 1000) {
+                out.fail("c20.client/return-time", format!("returned at {t_ret} us, response arrived at {a} ms, send_to of that transmission returned at {e} ms"));
+            }
+        }
+        _ => {
+            let s6 = starts[6];
+            if ![s6 + 32_000, s6 + d + 32_000, s6 + 8_000, s6 + d + 8_000].contains(&(t_ret / 1000)) || t_ret % 1000 != 0 {
+                out.fail("c20.client/give-up-time", format!("returned None at {t_ret} us, last transmission at {s6} ms"));
+            }
+        }
+    }
+    let exp_received: Vec<(u64, bool)> = (0..=last).filter(|i| wrong(*i)).map(|i| ((starts[i] + off) * 1000, false)).collect();
+    let got_recv: Vec<(u64, bool)> = received.iter().map(|(t, rid, _)| (*t, *rid == id)).collect();
+    if got_recv != exp_received {
+        out.fail("c20.client/unmatched-responses-to-user", format!("StunEndpointUser::receive saw {got_recv:?} (us, right id), expected {exp_received:?}"));
+    } else if received.iter().any(|(_, _, b)| b[..] != wrong_bytes[..]) {
+        out.fail("c20.client/message-to-user-differs", "a message handed to StunEndpointUser::receive is not the delivered one");
+    }
 }
